@@ -36,8 +36,10 @@ TsOut2 == LET t2 == IF C.ts2 = -2 THEN C.now2 ELSE C.ts2               \* a time
           IN IF C.res = 0 THEN t2 ELSE 2 * ((Trunc2(t2) \div C.res) * C.res)
 
 Flags ==
-     (IF (C.obs.admitted = 1) # Admit THEN {IF Admit THEN "filtered-wrongly" ELSE "admitted-wrongly"} ELSE {})
-\cup (IF C.obs.admitted = 1 /\ Admit /\ C.obs.ts2 # TsOut2 THEN {"timestamp"} ELSE {})
+     \* (a datapoint with a NaN / infinite timestamp is malformed input - C11 -: only the list counters are judged)
+     (IF C.tsbad = 0 /\ (C.obs.admitted = 1) # Admit THEN {IF Admit THEN "filtered-wrongly" ELSE "admitted-wrongly"} ELSE {})
+\cup (IF C.tsbad = 1 /\ C.obs.admitted = 1 /\ ~Admit THEN {"admitted-wrongly"} ELSE {})
+\cup (IF C.tsbad = 0 /\ C.obs.admitted = 1 /\ Admit /\ C.obs.ts2 # TsOut2 THEN {"timestamp"} ELSE {})
 \cup (IF C.obs.admitted = 1 /\ (C.obs.namesame = 0 \/ C.obs.valuesame = 0) THEN {"altered"} ELSE {})
 \cup (IF C.obs.blcount # (IF Blacklisted THEN 1 ELSE 0) THEN {"counter:blacklistMatches"} ELSE {})
 \cup (IF C.obs.wlcount # (IF WhiteRejected THEN 1 ELSE 0) THEN {"counter:whitelistRejects"} ELSE {})
